@@ -405,3 +405,477 @@ Proof.
       rewrite firstn_app. rewrite (firstn_all2 a) by lia. reflexivity.
     + right; right. apply firstn_all2. rewrite app_length. cbn [length]. lia.
 Qed.
+
+(* ------------------------------------------------------------------------------------------ *)
+(* well-formed trees *)
+
+Lemma wfb_from_app acc X Y : wfb_from acc (X ++ Y) = wfb_from acc X && wfb_from (acc ++ X) Y.
+Proof.
+  revert acc; induction X as [|[p e] X IH]; intros acc; cbn [app wfb_from].
+  - rewrite app_nil_r. reflexivity.
+  - rewrite IH. rewrite <- app_assoc. cbn [app]. rewrite !andb_assoc. reflexivity.
+Qed.
+
+Lemma wfb_from_fresh acc X : wfb_from acc X = true ->
+  forall e e', In e X -> In e' acc -> is_prefix (fst e) (fst e') = false.
+Proof.
+  revert acc; induction X as [|[p x] X IH]; intros acc H e e' He He'; [destruct He|].
+  cbn [wfb_from] in H. apply andb_true_iff in H as [H H3]. apply andb_true_iff in H as [_ H2].
+  destruct He as [<-|He].
+  - cbn [fst]. apply negb_true_iff in H2.
+    destruct (is_prefix p (fst e')) eqn:Hp; [|reflexivity].
+    assert (existsb (fun e'0 => is_prefix p (fst e'0)) acc = true) by (apply existsb_exists; eauto). congruence.
+  - apply (IH _ H3 e e' He). apply in_or_app. left. exact He'.
+Qed.
+
+Lemma wfb_from_nodup acc X : wfb_from acc X = true -> NoDup (map fst X).
+Proof.
+  revert acc; induction X as [|[p x] X IH]; intros acc H; cbn [map fst]; constructor.
+  - intros Hin. apply in_map_iff in Hin as [[q y] [Hq Hin]]. cbn [fst] in Hq. subst q.
+    cbn [wfb_from] in H. apply andb_true_iff in H as [_ H3].
+    pose proof (wfb_from_fresh _ _ H3 (p, y) (p, x) Hin) as Hf. cbn [fst] in Hf.
+    rewrite is_prefix_refl in Hf. discriminate Hf. apply in_or_app. right. left. reflexivity.
+  - cbn [wfb_from] in H. apply andb_true_iff in H as [_ H3]. eapply IH; eauto.
+Qed.
+
+Lemma wfb_from_mem acc X e : wfb_from acc X = true -> In e X -> mem (fst e) acc = false.
+Proof.
+  intros H Hin. destruct (mem (fst e) acc) eqn:Hm; [|reflexivity].
+  apply mem_in in Hm as [v Hv]. pose proof (wfb_from_fresh _ _ H e (fst e, v) Hin Hv) as Hf.
+  cbn [fst] in Hf. rewrite is_prefix_refl in Hf. discriminate.
+Qed.
+
+Lemma wfb_from_sub_nil acc X e : wfb_from acc X = true -> In e X -> sub (fst e) acc = [].
+Proof.
+  intros H Hin. apply filter_none. intros e' He'. eapply wfb_from_fresh; eauto.
+Qed.
+
+(* linking / unpacking a well-formed list of entries into a directory appends them *)
+Lemma put_all X : forall acc, wfb_from acc X = true -> fold_left put X acc = acc ++ X.
+Proof.
+  induction X as [|[p e] X IH]; intros acc H; cbn [fold_left]; [symmetry; apply app_nil_r|].
+  pose proof (wfb_from_mem acc _ (p, e) H (or_introl eq_refl)) as Hm. cbn [fst] in Hm.
+  cbn [wfb_from] in H. apply andb_true_iff in H as [_ H3].
+  assert (put acc (p, e) = acc ++ [(p, e)]) as ->.
+  { unfold put; cbn [fst snd]. destruct e; rewrite ?Hm, ?(remove_absent _ _ Hm); reflexivity. }
+  rewrite IH by exact H3. rewrite <- app_assoc. reflexivity.
+Qed.
+
+Lemma mkparents_noop ps : forall (acc : tree), forallb (fun q => mem q acc) ps = true ->
+  fold_left (fun o q => if mem q o then o else o ++ [(q, D)]) ps acc = acc.
+Proof.
+  induction ps as [|q ps IH]; intros acc H; cbn [fold_left]; [reflexivity|].
+  cbn [forallb] in H. apply andb_true_iff in H as [Hq H]. rewrite Hq. apply IH. exact H.
+Qed.
+
+Lemma unpack_all X : forall acc, wfb_from acc X = true -> fold_left unpack1 X acc = acc ++ X.
+Proof.
+  induction X as [|[p e] X IH]; intros acc H; cbn [fold_left]; [symmetry; apply app_nil_r|].
+  pose proof (wfb_from_sub_nil acc _ (p, e) H (or_introl eq_refl)) as Hs. cbn [fst] in Hs.
+  cbn [wfb_from] in H. apply andb_true_iff in H as [H H3]. apply andb_true_iff in H as [H1 _].
+  assert (unpack1 acc (p, e) = acc ++ [(p, e)]) as ->.
+  { unfold unpack1; cbn [fst]. rewrite (mkparents_noop _ _ H1). rewrite (drop_sub_none _ _ Hs). reflexivity. }
+  rewrite IH by exact H3. rewrite <- app_assoc. reflexivity.
+Qed.
+
+(* ------------------------------------------------------------------------------------------ *)
+(* storing the files of one output *)
+
+Definition inj (pre : path) (e : path * ent) : path * node := (pre ++ fst e, E (snd e)).
+
+Lemma run_adds pre X : forall st, (forall e, In e X -> mem (pre ++ fst e) st = false) -> NoDup (map fst X) ->
+  run (map (add_step pre) X) st = st ++ map (inj pre) X.
+Proof.
+  induction X as [|x X IH]; intros st Hm Hnd; cbn [map run fold_left]; [symmetry; apply app_nil_r|].
+  change (fold_left exec (map (add_step pre) X) (exec st (add_step pre x))) with (run (map (add_step pre) X) (exec st (add_step pre x))).
+  assert (exec st (add_step pre x) = st ++ [inj pre x]) as ->.
+  { pose proof (Hm x (or_introl eq_refl)) as Hx. destruct x as [p e]. unfold add_step, inj; cbn [fst snd] in *.
+    destruct e; cbn [exec]; rewrite ?Hx, ?(remove_absent _ _ Hx); reflexivity. }
+  inversion Hnd as [|? ? Hnotin Hnd']; subst. rewrite IH.
+  - rewrite <- app_assoc. reflexivity.
+  - intros e He. rewrite mem_app. rewrite (Hm e (or_intror He)). cbn [orb mem existsb inj fst].
+    rewrite orb_false_r. apply path_eqb_neq. intros Heq. apply app_inv_head in Heq.
+    apply Hnotin. pose proof (in_map fst _ _ He) as Hin.
+    destruct x as [px ex], e as [pe ee]; cbn [fst] in *. subst px. exact Hin.
+  - exact Hnd'.
+Qed.
+
+Lemma sub_inj_all a o X : (forall e, In e X -> is_prefix [o] (fst e) = true) ->
+  sub [a; o] (map (inj [a]) X) = map (inj [a]) X.
+Proof.
+  intros H. apply filter_all. intros e He. apply in_map_iff in He as [x [<- Hx]].
+  unfold inj; cbn [fst app is_prefix]. rewrite str_eqb_refl. exact (H x Hx).
+Qed.
+
+Lemma sub_tree_under o (src : tree) e : In e (sub [o] src) -> is_prefix [o] (fst e) = true.
+Proof. intros H. apply filter_In in H. tauto. Qed.
+
+Lemma present_in o (src : tree) : mem [o] src = true -> exists v, In ([o], v) (sub [o] src).
+Proof.
+  intros H. apply mem_in in H as [v Hv]. exists v. apply filter_In. split; [exact Hv|]. apply is_prefix_refl.
+Qed.
+
+Definition step_keeps (p : path) (s : step) : bool :=
+  match s with
+  | SUnlink q => negb (path_eqb q p)
+  | SRename _ _ => false
+  | _ => true
+  end.
+
+Lemma mem_remove_other {A} p q (l : list (path * A)) : q <> p -> mem p (remove q l) = mem p l.
+Proof.
+  intros Hne. induction l as [|[r v] l IH]; [reflexivity|]. cbn [remove filter fst].
+  destruct (path_eqb r q) eqn:Hr; cbn [negb].
+  - apply path_eqb_eq in Hr. subst r. cbn [mem existsb fst].
+    replace (path_eqb q p) with false by (symmetry; apply path_eqb_neq; exact Hne). exact IH.
+  - cbn [mem existsb fst]. f_equal. exact IH.
+Qed.
+
+Lemma mem_exec_keeps p s st : step_keeps p s = true -> mem p st = true -> mem p (exec st s) = true.
+Proof.
+  destruct s as [q|q|q n|a b]; cbn [step_keeps exec]; intros Hk Hm; try discriminate.
+  - destruct (mem q st); [exact Hm|]. rewrite mem_app, Hm. reflexivity.
+  - apply negb_true_iff, path_eqb_neq in Hk. rewrite mem_remove_other; assumption.
+  - rewrite mem_app. destruct (path_eqb_spec q p) as [->|Hne].
+    + cbn [mem existsb fst]. rewrite path_eqb_refl. apply orb_true_r.
+    + rewrite mem_remove_other by exact Hne. rewrite Hm. reflexivity.
+Qed.
+
+Lemma mem_run_keeps p l : forall st, Forall (fun s => step_keeps p s = true) l -> mem p st = true -> mem p (run l st) = true.
+Proof.
+  induction l as [|s l IH]; intros st H Hm; [exact Hm|]. inversion H; subst.
+  cbn [run fold_left]. apply IH; [assumption|]. apply mem_exec_keeps; assumption.
+Qed.
+
+Lemma under2_keeps a o s : step_under [a; o] s = true -> step_keeps [a] s = true.
+Proof.
+  destruct s as [q|q|q n|x y]; cbn [step_under step_keeps]; intros H; try reflexivity; try discriminate.
+  apply negb_true_iff, path_eqb_neq. intros ->. cbn [is_prefix] in H. rewrite andb_false_r in H. discriminate.
+Qed.
+
+Lemma out_steps_keeps order src st o : Forall (fun s => step_keeps [kT] s = true) (out_steps order src st o).
+Proof.
+  unfold out_steps. repeat (apply Forall_app; split).
+  - repeat constructor.
+  - eapply Forall_impl; [|apply rm_steps_under]. intros s. apply under2_keeps.
+  - eapply Forall_impl; [|apply add_steps_under2]. intros s. apply under2_keeps.
+Qed.
+
+Lemma outs_steps_keeps order src outs : forall st, Forall (fun s => step_keeps [kT] s = true) (outs_steps order src st outs).
+Proof.
+  induction outs as [|o r IH]; intros st; cbn [outs_steps]; [constructor|].
+  apply Forall_app. split; [apply out_steps_keeps|apply IH].
+Qed.
+
+Lemma not_prefix_two a o : is_prefix [a; o] [a] = false.
+Proof. cbn [is_prefix]. apply andb_false_r. Qed.
+
+Lemma out_steps_off order src st o o' : o <> o' -> Forall (fun s => step_off [kT; o'] s = true) (out_steps order src st o).
+Proof.
+  intros Hne. unfold out_steps. repeat (apply Forall_app; split).
+  - constructor; [|constructor]. cbn [step_off]. rewrite not_prefix_two. reflexivity.
+  - eapply Forall_under_off; [|apply rm_steps_under]. intros q. apply prefix_two_other. exact Hne.
+  - eapply Forall_under_off; [|apply add_steps_under2]. intros q. apply prefix_two_other. exact Hne.
+Qed.
+
+Lemma outs_steps_off order src outs o' : ~ In o' outs -> forall st, Forall (fun s => step_off [kT; o'] s = true) (outs_steps order src st outs).
+Proof.
+  induction outs as [|o r IH]; intros Hn st; cbn [outs_steps]; [constructor|].
+  apply Forall_app. split.
+  - apply out_steps_off. intros ->. apply Hn. left. reflexivity.
+  - apply IH. intros Hin. apply Hn. right. exact Hin.
+Qed.
+
+(* the state after storeFile(o): the temp entry holds exactly the walk of o *)
+Lemma out_steps_spec order src st o done rest :
+  mem [o] src = true -> wfb_from done (sub [o] src ++ rest) = true ->
+  let st' := run (out_steps order src st o) st in
+  sub [kT; o] st' = map (inj [kT]) (sub [o] src) /\ mem [kT] st' = true.
+Proof.
+  intros Hp Hwf. cbn zeta. unfold out_steps. rewrite !run_app.
+  set (s0 := run [SMkdir [kT]] st).
+  assert (mem [kT] s0 = true) as Hm0.
+  { unfold s0. cbn [run fold_left exec]. destruct (mem [kT] st) eqn:Hm; [exact Hm|].
+    rewrite mem_app. cbn [mem existsb fst]. rewrite path_eqb_refl. apply orb_true_r. }
+  change (exec st (SMkdir [kT])) with s0.
+  set (s1 := run (rm_steps order [kT; o] s0) s0).
+  assert (sub [kT; o] s1 = []) as Hs1 by apply rm_steps_clears.
+  assert (mem [kT] s1 = true) as Hm1.
+  { apply mem_run_keeps; [|exact Hm0]. eapply Forall_impl; [|apply rm_steps_under]. intros s. apply under2_keeps. }
+  unfold link_steps. apply mem_true_lookup in Hp. destruct (lookup [o] src) as [v|]; [|congruence].
+  rewrite wfb_from_app in Hwf. apply andb_true_iff in Hwf as [Hwf _].
+  rewrite run_adds.
+  - split.
+    + rewrite sub_app, Hs1. cbn [app]. apply sub_inj_all. intros e He. eapply sub_tree_under; eauto.
+    + rewrite mem_app, Hm1. reflexivity.
+  - intros e He. apply (mem_sub_nil [kT; o]); [|exact Hs1].
+    cbn [app is_prefix]. rewrite str_eqb_refl. cbn [andb]. eapply sub_tree_under; eauto.
+  - eapply wfb_from_nodup; eauto.
+Qed.
+
+Lemma outs_steps_spec order src outs : forall st done,
+  all_present src outs = true -> NoDup outs -> wfb_from done (pack src outs) = true ->
+  let st' := run (outs_steps order src st outs) st in
+  (forall o, In o outs -> sub [kT; o] st' = map (inj [kT]) (sub [o] src))
+  /\ (outs <> [] -> mem [kT] st' = true).
+Proof.
+  induction outs as [|o r IH]; intros st done Hp Hnd Hwf; cbn zeta.
+  - split; [intros o []|congruence].
+  - cbn [outs_steps]. rewrite run_app. cbn [all_present forallb] in Hp. apply andb_true_iff in Hp as [Hpo Hpr].
+    inversion Hnd as [|? ? Hnotin Hnd']; subst. cbn [pack flat_map] in Hwf.
+    destruct (out_steps_spec order src st o done _ Hpo Hwf) as [Hsub Hmem].
+    set (st1 := run (out_steps order src st o) st) in *.
+    rewrite wfb_from_app in Hwf. apply andb_true_iff in Hwf as [_ Hwf'].
+    destruct (IH st1 _ Hpr Hnd' Hwf') as [IH1 IH2]. split.
+    + intros o' [<-|Hin]; [|apply IH1; exact Hin].
+      rewrite sub_run_off; [exact Hsub|]. apply outs_steps_off. exact Hnotin.
+    + intros _. apply mem_run_keeps; [apply outs_steps_keeps|exact Hmem].
+Qed.
+
+(* ------------------------------------------------------------------------------------------ *)
+(* the final rename *)
+
+Notation rp := (reprefix [kT] [kK]).
+
+Lemma sub_reprefix x : forall st : fs, sub [kK] st = [] ->
+  sub (kK :: x) (map rp st) = map rp (sub (kT :: x) st).
+Proof.
+  induction st as [|[q v] st IH]; intros H; [reflexivity|].
+  cbn [sub filter fst] in H. destruct (is_prefix [kK] q) eqn:HK; [discriminate|].
+  specialize (IH H). cbn [map]. cbn [sub filter]. fold (sub (kK :: x) (map rp st)). fold (sub (kT :: x) st).
+  unfold reprefix at 1; cbn [fst snd]. destruct (is_prefix [kT] q) eqn:HT.
+  - destruct q as [|b q]; [discriminate|]. cbn [is_prefix] in HT. apply andb_true_iff in HT as [Hb _].
+    apply str_eqb_eq in Hb. subst b. cbn [length skipn app fst is_prefix].
+    change (str_eqb kK kK) with true. change (str_eqb kT kT) with true. cbn [andb].
+    destruct (is_prefix x q); cbn [map]; rewrite IH; reflexivity.
+  - cbn [fst].
+    assert (is_prefix (kK :: x) q = false) as ->.
+    { destruct (is_prefix (kK :: x) q) eqn:Hq; [|reflexivity].
+      rewrite <- HK. symmetry. eapply is_prefix_trans; [|exact Hq]. cbn [is_prefix]. rewrite str_eqb_refl. reflexivity. }
+    assert (is_prefix (kT :: x) q = false) as ->.
+    { destruct (is_prefix (kT :: x) q) eqn:Hq; [|reflexivity].
+      rewrite <- HT. symmetry. eapply is_prefix_trans; [|exact Hq]. cbn [is_prefix]. rewrite str_eqb_refl. reflexivity. }
+    exact IH.
+Qed.
+
+Lemma rename_final st : sub [kK] st = [] -> mem [kT] st = true ->
+  exec st (SRename [kT] [kK]) = map rp st.
+Proof.
+  intros HK HT. cbn [exec]. unfold rename_ok. apply mem_true_lookup in HT.
+  destruct (lookup [kT] st); [|congruence]. rewrite HK. rewrite drop_sub_none by exact HK. reflexivity.
+Qed.
+
+Lemma rp_inj e : rp (inj [kT] e) = inj [kK] e.
+Proof. unfold reprefix, inj; cbn [fst snd app is_prefix]. rewrite str_eqb_refl. reflexivity. Qed.
+
+Lemma strip_ents_inj X : strip 1 (ents (map (inj [kK]) X)) = X.
+Proof.
+  induction X as [|[p e] X IH]; [reflexivity|]. cbn [map inj ents flat_map fst snd app strip skipn].
+  f_equal. exact IH.
+Qed.
+
+(* ------------------------------------------------------------------------------------------ *)
+(* round trip *)
+
+Lemma retr_plain_hit st src outs : forall done,
+  (forall o, In o outs -> sub [kK; o] st = map (inj [kK]) (sub [o] src)) ->
+  all_present src outs = true -> wfb_from done (pack src outs) = true ->
+  retr_plain st outs done = Hit (done ++ pack src outs).
+Proof.
+  induction outs as [|o r IH]; intros done Hsub Hp Hwf; cbn [retr_plain pack flat_map].
+  - rewrite app_nil_r. reflexivity.
+  - cbn [all_present forallb] in Hp. apply andb_true_iff in Hp as [Hpo Hpr].
+    cbn [pack flat_map] in Hwf. rewrite wfb_from_app in Hwf. apply andb_true_iff in Hwf as [HwX Hwr].
+    destruct (present_in o src Hpo) as [v Hv].
+    pose proof (wfb_from_sub_nil _ _ _ HwX Hv) as Hd. cbn [fst] in Hd. rewrite (drop_sub_none _ _ Hd).
+    rewrite <- (lookup_sub [kK; o] [kK; o] st (is_prefix_refl _)).
+    rewrite (Hsub o (or_introl eq_refl)).
+    assert (lookup [kK; o] (map (inj [kK]) (sub [o] src)) <> None) as Hl.
+    { apply mem_true_lookup. apply mem_in. exists (E v). change ([kK; o], E v) with (inj [kK] ([o], v)). apply in_map. exact Hv. }
+    destruct (lookup [kK; o] (map (inj [kK]) (sub [o] src))); [|congruence].
+    rewrite strip_ents_inj. rewrite (put_all _ _ HwX).
+    rewrite IH; [rewrite <- app_assoc; reflexivity| |exact Hpr|exact Hwr].
+    intros o' Hin. apply Hsub. right. exact Hin.
+Qed.
+
+Lemma roundtrip_plain order st outs src :
+  wfb (pack src outs) = true -> NoDup outs -> outs <> [] -> all_present src outs = true ->
+  retrieve false (run (store_steps false order st outs src) st) outs = Hit (pack src outs).
+Proof.
+  intros Hwf Hnd Hne Hp. cbn [store_steps]. unfold store_plain. rewrite !run_app.
+  set (st1 := run (rm_steps order [kK] st) st).
+  assert (sub [kK] st1 = []) as HK1 by apply rm_steps_clears.
+  destruct (outs_steps_spec order src outs st1 [] Hp Hnd Hwf) as [Hsub Hmem].
+  set (st2 := run (outs_steps order src st1 outs) st1) in *.
+  assert (sub [kK] st2 = []) as HK2.
+  { unfold st2. rewrite sub_run_off; [exact HK1|]. eapply Forall_under_off; [|apply outs_steps_under]. apply prefix_KT_not_K. }
+  specialize (Hmem Hne). cbn [run fold_left]. rewrite (rename_final st2 HK2 Hmem).
+  unfold retrieve, retrieve2.
+  assert (lookup [kK] (map rp st2) <> None) as Hl.
+  { apply mem_true_lookup. apply mem_in in Hmem as [v Hv]. apply mem_in. exists v.
+    change ([kK], v) with (rp ([kT], v)). apply in_map. exact Hv. }
+  destruct (lookup [kK] (map rp st2)); [|congruence].
+  destruct outs as [|o r]; [congruence|].
+  change (Hit (pack src (o :: r))) with (Hit ([] ++ pack src (o :: r))).
+  apply retr_plain_hit; [|exact Hp|exact Hwf].
+  intros o' Hin. rewrite (sub_reprefix [o'] st2 HK2). rewrite (Hsub o' Hin).
+  rewrite map_map. apply map_ext. intros e. apply rp_inj.
+Qed.
+
+Lemma remove_app {A} p (a b : list (path * A)) : remove p (a ++ b) = remove p a ++ remove p b.
+Proof. apply filter_app. Qed.
+
+Lemma roundtrip_comp order st outs src :
+  wfb (pack src outs) = true -> outs <> [] -> all_present src outs = true ->
+  retrieve true (run (store_steps true order st outs src) st) outs = Hit (pack src outs).
+Proof.
+  intros Hwf Hne Hp. cbn [store_steps]. unfold store_comp. rewrite Hp. rewrite !run_app.
+  set (st1 := run (rm_steps order [kK] st) st).
+  assert (sub [kK] st1 = []) as HK1 by apply rm_steps_clears.
+  set (s2 := run (rm_steps order [kT] st1) st1).
+  assert (sub [kT] s2 = []) as HT2 by apply rm_steps_clears.
+  assert (sub [kK] s2 = []) as HK2.
+  { unfold s2. rewrite sub_run_off; [exact HK1|]. eapply Forall_under_off; [|apply rm_steps_under]. apply prefix_KT_not_K. }
+  pose proof (mem_sub_nil [kT] [kT] s2 (is_prefix_refl _) HT2) as HmT.
+  assert (run [SAdd [kT] (Tar (pack src outs))] (run [SAdd [kT] Junk] s2) = s2 ++ [([kT], Tar (pack src outs))]) as ->.
+  { cbn [run fold_left exec]. rewrite (remove_absent _ _ HmT). rewrite remove_app, (remove_absent _ _ HmT).
+    cbn [remove filter fst]. rewrite path_eqb_refl. cbn [negb app]. rewrite app_nil_r. reflexivity. }
+  set (st2 := s2 ++ [([kT], Tar (pack src outs))]).
+  assert (sub [kK] st2 = []) as HK3. { unfold st2. rewrite sub_app, HK2. reflexivity. }
+  assert (sub [kT] st2 = [([kT], Tar (pack src outs))]) as HT3.
+  { unfold st2. rewrite sub_app, HT2. cbn [sub filter fst app]. rewrite is_prefix_refl. reflexivity. }
+  assert (mem [kT] st2 = true) as HmT2.
+  { unfold st2. rewrite mem_app. cbn [mem existsb fst]. rewrite path_eqb_refl. apply orb_true_r. }
+  change (run [SRename [kT] [kK]] st2) with (exec st2 (SRename [kT] [kK])).
+  rewrite (rename_final st2 HK3 HmT2).
+  unfold retrieve, retrieve2.
+  rewrite <- (lookup_sub [kK] [kK] (map rp st2) (is_prefix_refl _)).
+  rewrite (sub_reprefix [] st2 HK3), HT3. cbn [map]. unfold reprefix; cbn [fst snd is_prefix].
+  rewrite str_eqb_refl. cbn [andb app length skipn lookup]. rewrite path_eqb_refl.
+  destruct outs as [|o r]; [congruence|].
+  unfold unpack. rewrite (unpack_all _ [] Hwf). reflexivity.
+Qed.
+
+Lemma roundtrip c order st outs src :
+  wfb (pack src outs) = true -> NoDup outs -> outs <> [] -> all_present src outs = true ->
+  retrieve c (run (store_steps c order st outs src) st) outs = Hit (pack src outs).
+Proof. destruct c; intros; [apply roundtrip_comp|apply roundtrip_plain]; assumption. Qed.
+
+(* ------------------------------------------------------------------------------------------ *)
+(* crash points *)
+
+Lemma filter_le1 {A} (g : A -> bool) l : length l <= 1 -> filter g l = l \/ filter g l = [].
+Proof.
+  destruct l as [|x [|y l]]; cbn [length filter]; intros H; [left; reflexivity| |lia].
+  destruct (g x); [left|right]; reflexivity.
+Qed.
+
+Lemma sub_filter {A} p (g : path * A -> bool) l : sub p (filter g l) = filter g (sub p l).
+Proof. apply filter_comm. Qed.
+
+Lemma mem_filter {A} p (g : path * A -> bool) l : mem p (filter g l) = true -> mem p l = true.
+Proof.
+  intros H. apply mem_in in H as [v Hv]. apply filter_In in Hv as [Hv _]. apply mem_in. eauto.
+Qed.
+
+(* a partly removed old entry whose outputs are single objects is a miss or still the old entry *)
+Lemma retr_plain_removed g st outs : forall out,
+  old_single st outs = true ->
+  retr_plain (filter g st) outs out = Miss \/ retr_plain (filter g st) outs out = retr_plain st outs out.
+Proof.
+  induction outs as [|o r IH]; intros out H; cbn [retr_plain]; [right; reflexivity|].
+  cbn [old_single forallb] in H. apply andb_true_iff in H as [Ho Hr]. apply Nat.leb_le in Ho.
+  rewrite <- (lookup_sub [kK; o] [kK; o] (filter g st) (is_prefix_refl _)).
+  rewrite <- (lookup_sub [kK; o] [kK; o] st (is_prefix_refl _)).
+  rewrite (sub_filter [kK; o] g st).
+  destruct (filter_le1 g _ Ho) as [-> | ->].
+  - destruct (lookup [kK; o] (sub [kK; o] st)); [apply IH; exact Hr|left; reflexivity].
+  - left. reflexivity.
+Qed.
+
+Lemma retrieve_removed c g st outs :
+  crash_defect c st outs = None ->
+  retrieve c (filter g st) outs = Miss \/ retrieve c (filter g st) outs = retrieve c st outs.
+Proof.
+  unfold crash_defect. destruct (key_absent st) eqn:Ha.
+  - intros _. left. apply retrieve_miss. rewrite sub_filter. apply key_absent_sub in Ha. rewrite Ha. reflexivity.
+  - destruct c.
+    + destruct (Nat.leb (length (sub [kK] st)) 1) eqn:Hl; [|discriminate]. intros _. apply Nat.leb_le in Hl.
+      destruct (filter_le1 g _ Hl) as [He | He].
+      * right. apply retrieve2_ext; rewrite sub_filter; exact He.
+      * left. apply retrieve_miss. rewrite sub_filter. exact He.
+    + destruct (old_single st outs) eqn:Hs; [|discriminate]. intros _.
+      unfold retrieve, retrieve2.
+      destruct (lookup [kK] (filter g st)) eqn:Hl; [|left; reflexivity].
+      assert (lookup [kK] st <> None) as Hl'.
+      { apply mem_true_lookup. apply (mem_filter _ g). apply mem_true_lookup. congruence. }
+      destruct (lookup [kK] st); [|congruence].
+      destruct outs as [|o r]; [right; reflexivity|]. apply retr_plain_removed. exact Hs.
+Qed.
+
+Lemma firstn_map {A B} (f : A -> B) n l : firstn n (map f l) = map f (firstn n l).
+Proof. revert l; induction n; intros [|x l]; cbn [firstn map]; [reflexivity..|]. f_equal. auto. Qed.
+
+Definition inputs_ok (c : bool) (st : fs) (outs : list str) (src : tree) : Prop :=
+  wfb (pack src outs) = true /\ NoDup outs /\ outs <> [] /\ all_present src outs = true
+  /\ (c = false -> tmp_ok st = true).
+
+(* the K-subtree of every crash state *)
+Lemma crash_states c order st outs src n :
+  let st' := run (firstn n (store_steps c order st outs src)) st in
+  (exists g, sub [kK] st' = sub [kK] (filter g st) /\ (key_absent st = true -> sub [kK] st' = []))
+  \/ sub [kK] st' = []
+  \/ firstn n (store_steps c order st outs src) = store_steps c order st outs src.
+Proof.
+  cbn zeta. destruct (prefix_cases c order st outs src n) as [[k ->] | [[k ->] | ->]].
+  - left. unfold rm_steps. rewrite firstn_map, run_unlinks. eexists. split; [reflexivity|].
+    intros Ha. rewrite sub_filter. apply key_absent_sub in Ha. rewrite Ha. reflexivity.
+  - right; left. rewrite run_app, sub_K_build. apply rm_steps_clears.
+  - right; right. reflexivity.
+Qed.
+
+Lemma crash_atomic c order st outs src :
+  inputs_ok c st outs src -> crash_defect c st outs = None ->
+  forall n, let r := retrieve c (run (firstn n (store_steps c order st outs src)) st) outs in
+    r = Miss \/ r = Hit (pack src outs) \/ r = retrieve c st outs.
+Proof.
+  intros (Hwf & Hnd & Hne & Hp & _) Hd n. cbn zeta.
+  destruct (crash_states c order st outs src n) as [[g [Hg _]] | [H0 | ->]].
+  - destruct (retrieve_removed c g st outs Hd) as [Hm | Ho].
+    + left. rewrite <- Hm. apply retrieve2_ext; exact Hg.
+    + right; right. rewrite <- Ho. apply retrieve2_ext; exact Hg.
+  - left. apply retrieve_miss. exact H0.
+  - right; left. apply roundtrip; assumption.
+Qed.
+
+(* stores to an absent key: every crash point is a miss or the complete new tree *)
+Lemma crash_absent c order st outs src :
+  inputs_ok c st outs src -> key_absent st = true ->
+  forall n, let r := retrieve c (run (firstn n (store_steps c order st outs src)) st) outs in
+    r = Miss \/ r = Hit (pack src outs).
+Proof.
+  intros (Hwf & Hnd & Hne & Hp & _) Ha n. cbn zeta.
+  destruct (crash_states c order st outs src n) as [[g [_ Hg]] | [H0 | ->]].
+  - left. apply retrieve_miss. apply Hg. exact Ha.
+  - left. apply retrieve_miss. exact H0.
+  - right. apply roundtrip; assumption.
+Qed.
+
+(* a retrieve that overlaps a store to an absent key (existence check after i steps, reads after
+   j >= i steps) is a miss or the complete new tree *)
+Lemma race_absent c order st outs src :
+  inputs_ok c st outs src -> key_absent st = true ->
+  forall i j, i <= j ->
+    let steps := store_steps c order st outs src in
+    let r := retrieve2 c (run (firstn i steps) st) (run (firstn j steps) st) outs in
+    r = Miss \/ r = Hit (pack src outs).
+Proof.
+  intros (Hwf & Hnd & Hne & Hp & _) Ha i j Hij. cbn zeta.
+  destruct (crash_states c order st outs src i) as [[g [_ Hg]] | [H0 | He]].
+  - left. apply retrieve2_absent. apply Hg. exact Ha.
+  - left. apply retrieve2_absent. exact H0.
+  - right.
+    assert (length (store_steps c order st outs src) <= i) as Hlen.
+    { pose proof (firstn_length i (store_steps c order st outs src)) as Hl. rewrite He in Hl. lia. }
+    rewrite !firstn_all2 by lia. apply roundtrip; assumption.
+Qed.
